@@ -11,6 +11,8 @@ from ..astutil import call_name, calls_in, dotted, func_defaults, name_stores, r
 from ..index import FuncInfo
 from ..report import Registry, chain, sub
 from ._helpers_rules_a import self_attr
+from ._helpers_rob_c1 import Opaque, Unsupported as _PyLiteUnsupported
+from ._helpers_rob_e2 import explore_paths, local_defs, parts_of
 
 R = Registry(
     "C20",
@@ -84,12 +86,14 @@ def _is_urllib_codec(mod, nm):
     return last if imp[1] in ("urllib", "urllib.parse") else None
 
 
-def _fields_of(node, env):
+def _fields_of(node, env, depth=0):
     """URL fields (self.<x>) an expression depends on, through the parameter bindings of followed helpers."""
     out = set(_self_fields_in(node))
+    if depth > 8:
+        return out
     for n in ast.walk(node):
         if isinstance(n, ast.Name) and n.id in env:
-            out |= _fields_of(env[n.id].node, env[n.id].env)
+            out |= _fields_of(env[n.id].node, env[n.id].env, depth + 1)
     return out
 
 
@@ -221,44 +225,148 @@ def _writer_codecs(ctx, f):
             return [c]
         return []
 
+    top = _local_env(f.node)
     for c in calls_in(f.node, into_nested=True):
-        visit(c, {}, f, 0, None, [])
+        visit(c, top, f, 0, None, [])
     return out
 
 
+def _local_env(fn_node):
+    """name -> _Closure for the writer's own single-assignment locals (`host = self.host`, `keys = sorted(query)`) and
+    for loop / comprehension targets (bound to the sequence they run over): a component that reaches its encoder
+    through a local alias is still that component."""
+    env = {}
+    for nm, val in local_defs(fn_node).items():
+        env[nm] = _Closure(val, env, f"local `{nm}`")
+    for n in walk_local(fn_node, into_nested=True):
+        if isinstance(n, (ast.comprehension, ast.For)):
+            for t in _target_names(n.target):
+                if t not in env:
+                    env[t] = _Closure(n.iter, env, f"loop variable `{t}`")
+    return env
+
+
+DECODERS = ("unquote", "unquote_plus", "parse_qsl", "parse_qs", "int")
+READER_HELPER_DEPTH = 2
+
+
+class _RScope:
+    """One function of the reader (`_parse_url` or a helper of engine/url.py it calls) with the bindings of its
+    parameters: name -> (argument expression, scope of the caller).  `site` is the line in `_parse_url` of the call
+    that leads here (None for `_parse_url` itself)."""
+
+    def __init__(self, fn, params, site, depth):
+        self.fn, self.params, self.site, self.depth = fn, params, site, depth
+        self.defs = local_defs(fn.node)
+        self.pm = fn.module.parents()
+
+
+def _reader_scopes(ctx, f):
+    """`_parse_url` and the module-level helpers it hands (parts of) the match to, one or two calls deep."""
+    cache = ctx.__dict__.setdefault("_c20_reader_scopes", {})
+    if f.key in cache:
+        return cache[f.key]
+    out, work, seen = [], [_RScope(f, {}, None, 0)], {f.key}
+    while work:
+        sc = work.pop(0)
+        out.append(sc)
+        if sc.depth >= READER_HELPER_DEPTH:
+            continue
+        for c in calls_in(sc.fn.node):
+            target, _bs = _resolve_helper(ctx, c, sc.fn)
+            if target is None or target.cls is not None or target.key in seen:
+                continue
+            a = target.node.args
+            pos = [x.arg for x in a.posonlyargs + a.args]
+            if any(isinstance(x, ast.Starred) for x in c.args) or any(k.arg is None for k in c.keywords):
+                continue
+            params = {p: (arg, sc) for p, arg in list(zip(pos, c.args)) + [(k.arg, k.value) for k in c.keywords]}
+            seen.add(target.key)
+            ctx.functions_analysed.add(target.key)
+            work.append(_RScope(target, params, c.lineno if sc.site is None else sc.site, sc.depth + 1))
+    cache[f.key] = out
+    return out
+
+
+def _loop_consts(sc, node, name):
+    """constants a loop / comprehension variable `name` visible at `node` runs over, or None."""
+    cur = sc.pm.get(node)
+    while cur is not None:
+        its = []
+        if isinstance(cur, ast.For) and name in _target_names(cur.target):
+            its = [cur.iter]
+        elif isinstance(cur, (ast.ListComp, ast.SetComp, ast.GeneratorExp, ast.DictComp)):
+            its = [g_.iter for g_ in cur.generators if name in _target_names(g_.target)]
+        for it in its:
+            it = sc.defs.get(it.id, it) if isinstance(it, ast.Name) else it
+            if isinstance(it, (ast.Tuple, ast.List, ast.Set)) and it.elts and all(isinstance(e, ast.Constant) for e in it.elts):
+                return [e.value for e in it.elts]
+            return None
+        if cur is sc.fn.node:
+            break
+        cur = sc.pm.get(cur)
+    return None
+
+
+def _groups_of(expr, sc, depth=0):
+    """names of the regex groups / components whose text `expr` carries: `d["x"]`, `d.pop("x")`, `m.group("x")`, a
+    loop variable subscript over constant names, a local alias or a helper parameter bound to one of those, `a or b`,
+    `a if c else b`, `str(a)`.  Empty set: not the text of a component (or not understood)."""
+    if depth > 8 or expr is None:
+        return set()
+    if isinstance(expr, ast.Subscript) or (isinstance(expr, ast.Call) and isinstance(expr.func, ast.Attribute)
+                                           and expr.func.attr in ("pop", "get", "group") and expr.args):
+        k = expr.slice if isinstance(expr, ast.Subscript) else expr.args[0]
+        if isinstance(k, ast.Constant) and isinstance(k.value, str):
+            return {k.value}
+        if isinstance(k, ast.Name):
+            consts = _loop_consts(sc, expr, k.id)
+            if consts is not None:
+                return {c for c in consts if isinstance(c, str)}
+            v = sc.defs.get(k.id)
+            if isinstance(v, ast.Constant) and isinstance(v.value, str):
+                return {v.value}
+        return set()
+    if isinstance(expr, ast.Call) and isinstance(expr.func, ast.Name) and expr.func.id in ("str", "cast") and expr.args:
+        return _groups_of(expr.args[-1], sc, depth + 1)
+    if isinstance(expr, ast.BoolOp):
+        if isinstance(expr.op, ast.And):      # `x and f(x)`: the value, when there is one, is the last operand
+            return _groups_of(expr.values[-1], sc, depth + 1)
+        out = set()
+        for v in expr.values:
+            out |= _groups_of(v, sc, depth + 1)
+        return out
+    if isinstance(expr, ast.IfExp):
+        return _groups_of(expr.body, sc, depth + 1) | _groups_of(expr.orelse, sc, depth + 1)
+    if isinstance(expr, ast.NamedExpr):
+        return _groups_of(expr.value, sc, depth + 1)
+    if isinstance(expr, ast.Name):
+        if expr.id in sc.params:
+            arg, parent = sc.params[expr.id]
+            return _groups_of(arg, parent, depth + 1)
+        if expr.id in sc.defs:
+            return _groups_of(sc.defs[expr.id], sc, depth + 1)
+    return set()
+
+
 def _reader_codecs(ctx, f):
-    """component -> set of decoder names applied in _parse_url."""
-    return {comp: {nm for nm, _ in v} for comp, v in _reader_codec_calls(ctx, f).items()}
+    """component -> set of decoder names applied by the reader."""
+    return {comp: {e[0] for e in v} for comp, v in _reader_codec_calls(ctx, f).items()}
 
 
 def _reader_codec_calls(ctx, f):
-    """component -> list of (decoder name, call node) applied in _parse_url."""
+    """component -> list of (decoder name, call node, scope) applied in _parse_url or in the helpers it calls."""
     out = {}
-    pm = f.module.parents()
-    for c in calls_in(f.node):
-        nm = (call_name(c) or "").rsplit(".", 1)[-1]
-        if nm not in ("unquote", "unquote_plus", "parse_qsl", "parse_qs", "int"):
-            continue
-        if not c.args:
-            continue
-        a = c.args[0]
-        if not (isinstance(a, ast.Subscript) and isinstance(a.value, ast.Name)):
-            continue
-        idx = a.slice
-        comps = []
-        if isinstance(idx, ast.Constant):
-            comps = [idx.value]
-        elif isinstance(idx, ast.Name):
-            # loop variable over a constant tuple
-            cur = pm.get(c)
-            while cur is not None and not (isinstance(cur, ast.For) and isinstance(cur.target, ast.Name) and cur.target.id == idx.id):
-                cur = pm.get(cur)
-            ctx.require(cur is not None and isinstance(cur.iter, (ast.Tuple, ast.List))
-                        and all(isinstance(e, ast.Constant) for e in cur.iter.elts),
-                        f"_parse_url: cannot enumerate the components decoded by `{unparse(c)}`")
-            comps = [e.value for e in cur.iter.elts]
-        for comp in comps:
-            out.setdefault(comp, []).append((nm, c))
+    for sc in _reader_scopes(ctx, f):
+        for c in calls_in(sc.fn.node):
+            nm = (call_name(c) or "").rsplit(".", 1)[-1]
+            if nm not in DECODERS or not c.args:
+                continue
+            comps = _groups_of(c.args[0], sc)
+            if not comps and nm != "int":
+                ctx.error(f"{sc.fn.key}: cannot tell which URL component `{unparse(c)}` decodes")
+            for comp in sorted(comps):
+                out.setdefault(comp, []).append((nm, c, sc))
     return out
 
 
@@ -274,7 +382,8 @@ def r1(ctx):
     for comp in fields:
         key = f"{URLPY}::URL:{comp}"
         enc = {nm for nm, _, _, _ in wc.get(comp, [])}
-        dec = {d for d in rc.get(comp, set()) if d != "int"}
+        dec = {d for g_ in [comp] + [g_ for g_, fld in GROUP_FIELD.items() if fld == comp]
+               for d in rc.get(g_, set()) if d != "int"}
         if not enc and comp in wc["?unfollowed"]:
             ctx.error(f"render_as_string passes `{comp}` to {wc['?unfollowed'][comp]}, which is neither a urllib codec nor "
                       f"a helper defined in {URLPY}; cannot tell how `{comp}` is written")
@@ -299,7 +408,8 @@ def r1(ctx):
     for n in walk_local(w.node, into_nested=True):
         if isinstance(n, ast.comprehension) and any(True for _ in n.ifs):
             skips_blank = True  # a filter in the query generator: assume it may skip empties (conservative: unknown)
-    qsl = [c for c in calls_in(r.node) if (call_name(c) or "").rsplit(".", 1)[-1] in ("parse_qsl", "parse_qs")]
+    qsl = [c for sc in _reader_scopes(ctx, r) for c in calls_in(sc.fn.node)
+           if (call_name(c) or "").rsplit(".", 1)[-1] in ("parse_qsl", "parse_qs")]
     if qsl and not skips_blank:
         keeps = all(any(k.arg == "keep_blank_values" and isinstance(k.value, ast.Constant) and k.value.value is True
                         for k in c.keywords) or (len(c.args) > 1 and isinstance(c.args[1], ast.Constant) and c.args[1].value is True)
@@ -316,16 +426,50 @@ def r1(ctx):
     create = ctx.func(f"{URLPY}::URL.create")
     cparams = [p for p in create.params if p != "cls"]
     popped, assigned = set(), set()
-    for n in walk_local(r.node):
+    for n in (n for sc in _reader_scopes(ctx, r) for n in walk_local(sc.fn.node)):
         if isinstance(n, ast.Call) and isinstance(n.func, ast.Attribute) and n.func.attr == "pop" and n.args \
                 and isinstance(n.args[0], ast.Constant):
             popped.add(n.args[0].value)
         if isinstance(n, ast.Assign) and isinstance(n.targets[0], ast.Subscript) and isinstance(n.targets[0].slice, ast.Constant):
             assigned.add(n.targets[0].slice.value)
+        if isinstance(n, ast.Delete):
+            popped |= {t.slice.value for t in n.targets if isinstance(t, ast.Subscript) and isinstance(t.slice, ast.Constant)}
     final = (groups - popped) | assigned
     ctx.check(final == set(cparams[1:]), f"{r.key}:groups->create",
               f"keys passed to URL.create(**components) are {sorted(final)}, create() takes {cparams[1:]}",
               f"{sorted(final)}", r.loc)
+
+
+def _eq_facts(e, pol, other, defs, depth=0):
+    """fields f such that `self.f == <other>.f` is implied when expression `e` has truth value `pol`."""
+    if depth > 6:
+        return set()
+    if isinstance(e, ast.Name) and e.id in defs:
+        return _eq_facts(defs[e.id], pol, other, defs, depth + 1)
+    if isinstance(e, ast.UnaryOp) and isinstance(e.op, ast.Not):
+        return _eq_facts(e.operand, not pol, other, defs, depth + 1)
+    if isinstance(e, ast.BoolOp):
+        subs = [_eq_facts(v, pol, other, defs, depth + 1) for v in e.values]
+        if isinstance(e.op, ast.And) == pol:      # all operands have truth value `pol`
+            return set().union(*subs)
+        return set.intersection(*subs) if subs else set()
+    if isinstance(e, ast.IfExp):
+        a = _eq_facts(e.test, True, other, defs, depth + 1) | _eq_facts(e.body, pol, other, defs, depth + 1)
+        b = _eq_facts(e.test, False, other, defs, depth + 1) | _eq_facts(e.orelse, pol, other, defs, depth + 1)
+        return a & b
+    if isinstance(e, ast.Compare) and len(e.ops) == 1 and isinstance(e.ops[0], ast.Eq if pol else ast.NotEq):
+        l, r_ = e.left, e.comparators[0]
+        l, r_ = defs.get(l.id, l) if isinstance(l, ast.Name) else l, defs.get(r_.id, r_) if isinstance(r_, ast.Name) else r_
+        pairs = [(l, r_)]
+        if isinstance(l, ast.Tuple) and isinstance(r_, ast.Tuple) and len(l.elts) == len(r_.elts):
+            pairs = list(zip(l.elts, r_.elts))   # the tuples are equal: every pair is
+        out = set()
+        for a, b in pairs:
+            for x, y in ((a, b), (b, a)):
+                if self_attr(x) is not None and self_attr(y, other) == self_attr(x):
+                    out.add(self_attr(x))
+        return out
+    return set()
 
 
 def _transitive_self_reads(ctx, f, seen=None):
@@ -351,7 +495,14 @@ def _url_fields(ctx):
 
 
 def _regex(ctx, f):
+    cands = list(calls_in(f.node))
+    # a pattern compiled once at module level: `_URL_RE = re.compile(...)`, used as `_URL_RE.match(text)`
     for c in calls_in(f.node):
+        if isinstance(c.func, ast.Attribute) and c.func.attr in ("match", "fullmatch", "search") and isinstance(c.func.value, ast.Name):
+            vals = f.module.assigns.get(c.func.value.id, [])
+            if len(vals) == 1 and isinstance(vals[0], ast.Call):
+                cands.append(vals[0])
+    for c in cands:
         if call_name(c) == "re.compile" and c.args and isinstance(c.args[0], ast.Constant) and isinstance(c.args[0].value, str):
             flags = 0
             for a in c.args[1:]:
@@ -530,20 +681,33 @@ def r3(ctx):
     fields = _url_fields(ctx)
     eq = ctx.func(f"{URLPY}::URL.__eq__")
     other = eq.params[1]
-    compared = set()
-    for n in walk_local(eq.node):
-        if isinstance(n, ast.Compare) and len(n.ops) == 1 and isinstance(n.ops[0], ast.Eq):
-            l, r_ = n.left, n.comparators[0]
-            for a, b in ((l, r_), (r_, l)):
-                if self_attr(a) is not None and isinstance(b, ast.Attribute) and isinstance(b.value, ast.Name) \
-                        and b.value.id == other and b.attr == self_attr(a):
-                    compared.add(self_attr(a))
-    rets = returns_of(eq.node)
-    conj = len(rets) == 1 and not any(isinstance(n, ast.BoolOp) and isinstance(n.op, ast.Or) for n in ast.walk(rets[0]))
-    missing = [f for f in fields if f not in compared]
-    ctx.check(not missing and conj, eq.key,
-              f"__eq__ ignores field(s) {missing}" if missing else "__eq__ is not a pure conjunction",
-              f"compares {sorted(compared)}", eq.loc)
+    defs = local_defs(eq.node)
+    g = ctx.cfg(eq)
+    # every way of answering "equal" implies self.f == other.f for all seven fields -- whatever the shape (one
+    # conjunction, early `return False` guards, nested ifs, a boolean local)
+    compared, worst, n_true = None, None, 0
+    for r_ in returns_of(eq.node):
+        v = r_.value
+        if v is None or (isinstance(v, ast.Constant) and not v.value) or (isinstance(v, ast.Name) and v.id == "NotImplemented"):
+            continue  # cannot answer "equal"
+        n_true += 1
+        facts = set() if (isinstance(v, ast.Constant) and v.value) else _eq_facts(v, True, other, defs)
+        for test, pol in g.edge_guards(g.nodes_for(r_)[0]):
+            facts |= _eq_facts(test, pol, other, defs)
+        missing = [f for f in fields if f not in facts]
+        if missing and worst is None:
+            worst = (missing, r_)
+        compared = facts if compared is None else (compared & facts)
+    ctx.require(n_true > 0, f"{eq.key}: no return that can answer True")
+    if worst is not None:
+        opaque = [unparse(c) for c in calls_in(eq.node) if call_name(c) != "isinstance"
+                  and {n.id for n in ast.walk(c) if isinstance(n, ast.Name)} >= {"self", other}]
+        loops = [n for n in walk_local(eq.node) if isinstance(n, (ast.For, ast.While, ast.comprehension))]
+        ctx.require(not opaque and not loops,
+                    f"{eq.key}: compares through {opaque or 'a loop'}; which fields that covers is not understood")
+    ctx.check(worst is None, eq.key,
+              f"__eq__ ignores field(s) {worst[0]} when it returns `{unparse(worst[1].value)[:60]}`" if worst else "",
+              f"compares {sorted(compared or ())}", eq.loc)
     h = ctx.func(f"{URLPY}::URL.__hash__")
     rets = returns_of(h.node)
     ok = False
@@ -592,27 +756,34 @@ def r4(ctx):
     pat, flags = _regex(ctx, r)
     tree = sre_parse.parse(pat, flags)
     gd = tree.state.groupdict
-    # writer
-    found = None
-    for n in walk_local(w.node):
-        if isinstance(n, ast.If) and isinstance(n.test, ast.Compare) and len(n.test.ops) == 1 \
-                and isinstance(n.test.ops[0], (ast.In, ast.NotIn)) and self_attr(n.test.comparators[0]) == "host" \
-                and isinstance(n.test.left, ast.Constant) and n.test.left.value == ":":
-            found = n
-    ctx.require(found is not None, "render_as_string: no `':' in self.host` test")
-    pos, neg = (found.body, found.orelse) if isinstance(found.test.ops[0], ast.In) else (found.orelse, found.body)
-
-    def appended(block):
-        out = []
-        for st in block:
-            if isinstance(st, ast.AugAssign) and isinstance(st.op, ast.Add):
-                out += [(k, t) for k, t, _ in _parts(st.value)]
-        return out
-    ctx.check(appended(pos) == [("const", "["), ("expr", "self.host"), ("const", "]")]
-              and appended(neg) == [("expr", "self.host")],
-              f"{w.key}:host-brackets",
-              f"a host containing ':' is written as {appended(pos)}, other hosts as {appended(neg)}; expected "
-              f"[host] and host", "':' in host -> [host]", w.loc)
+    # writer: every rendering that contains the host, whatever the shape of the code that produces it
+    paths = _writer_paths(ctx, w)
+    ctx.require(paths is not None, f"{w.key}: cannot be evaluated symbolically ({_writer_paths_error(ctx, w)})")
+    COLON = re.compile(r"^':' in (str\()?self\.host\)?$")
+    bad, seen_br, seen_bare = [], 0, 0
+    for assign, parts in paths:
+        for i, p_ in enumerate(parts):
+            if not (isinstance(p_, Opaque) and p_.label in ("self.host", "str(self.host)")):
+                continue
+            before = parts[i - 1] if i and isinstance(parts[i - 1], str) else ""
+            after = parts[i + 1] if i + 1 < len(parts) and isinstance(parts[i + 1], str) else ""
+            bracketed = before.endswith("[") and after.startswith("]")
+            colon = [v for a_, v in assign.items() if COLON.match(a_)]
+            other = [a_ for a_ in assign if "self.host" in a_ and not COLON.match(a_) and a_ not in ("self.host is None", "self.host")]
+            ctx.require(not other, f"{w.key}: the rendering of the host depends on `{other[:1]}`; not understood")
+            if before.endswith("[") != after.startswith("]"):
+                bad.append(f"the host is written with one bracket only ({before[-1:]!r} .. {after[:1]!r})")
+            elif not colon:
+                bad.append("the host is written " + ("bracketed" if bracketed else "bare") + " without looking at whether it contains ':'")
+            elif colon[0] and not bracketed:
+                bad.append("a host containing ':' is written without [ ] (the reader takes what follows the first ':' as the port)")
+            elif not colon[0] and bracketed:
+                bad.append("a host without ':' is written in [ ]")
+            seen_br += bracketed
+            seen_bare += not bracketed
+    ctx.require(seen_br + seen_bare > 0, f"{w.key}: no rendering contains self.host")
+    ctx.check(not bad, f"{w.key}:host-brackets", "; ".join(sorted(set(bad))[:3]),
+              f"':' in host -> [host] on {seen_br} rendering(s), bare on {seen_bare}", w.loc)
     # reader
     ctx.require("ipv6host" in gd and "ipv4host" in gd, "regex lacks ipv4host/ipv6host groups")
     c6, c4 = _group_class(tree, gd["ipv6host"]), _group_class(tree, gd["ipv4host"])
@@ -627,27 +798,30 @@ def r4(ctx):
     if "]" in c4[1] or "[" in c4[1]:
         pass
     ctx.check(not problems, f"{r.key}:host-groups", "; ".join(problems), f"[{sorted(c6[1])}] vs bare {sorted(c4[1])}", r.loc)
-    # host assembly
-    ok = False
-    for n in walk_local(r.node):
-        if isinstance(n, ast.Assign) and isinstance(n.targets[0], ast.Subscript) and isinstance(n.targets[0].slice, ast.Constant) \
-                and n.targets[0].slice.value == "host" and isinstance(n.value, ast.BoolOp) and isinstance(n.value.op, ast.Or):
-            srcs = set()
-            for v in n.value.values:
-                if isinstance(v, ast.Name):
-                    for m in walk_local(r.node):
-                        if isinstance(m, ast.Assign) and isinstance(m.targets[0], ast.Name) and m.targets[0].id == v.id \
-                                and isinstance(m.value, ast.Call) and m.value.args and isinstance(m.value.args[0], ast.Constant):
-                            srcs.add(m.value.args[0].value)
-            ok = srcs == {"ipv4host", "ipv6host"}
+    # host assembly: what is stored under "host" is one host group or else the other
+    ok, n_store = True, 0
+    for sc in _reader_scopes(ctx, r):
+        for n in walk_local(sc.fn.node):
+            if isinstance(n, ast.Assign) and isinstance(n.targets[0], ast.Subscript) and isinstance(n.targets[0].slice, ast.Constant) \
+                    and n.targets[0].slice.value == "host":
+                n_store += 1
+                v = n.value
+                v = sc.defs.get(v.id, v) if isinstance(v, ast.Name) else v
+                ok = ok and isinstance(v, (ast.BoolOp, ast.IfExp)) and _groups_of(v, sc) == {"ipv4host", "ipv6host"}
+    ok = ok and n_store > 0
     ctx.check(ok, f"{r.key}:host", "components['host'] is not `ipv4host or ipv6host`", "host = ipv4host or ipv6host", r.loc)
-    # port
-    wport = False
-    for n in walk_local(w.node):
-        if isinstance(n, ast.AugAssign):
-            p = [(k, t) for k, t, _ in _parts(n.value)]
-            if p == [("const", ":"), ("expr", "str(self.port)")]:
-                wport = True
+    # port: wherever it is rendered it directly follows a ':' and is the decimal text of the integer; it is
+    # rendered whenever it is set
+    wport, n_port = True, 0
+    for assign, parts in paths:
+        idx = [i for i, p_ in enumerate(parts) if isinstance(p_, Opaque) and p_.label in ("str(self.port)", "self.port")]
+        n_port += len(idx)
+        for i in idx:
+            if not (i and isinstance(parts[i - 1], str) and parts[i - 1].endswith(":")):
+                wport = False
+        if assign.get("self.port is None") is False and not idx:
+            wport = False
+    wport = wport and n_port > 0
     rc = _reader_codecs(ctx, r)
     rport = "int" in rc.get("port", set()) and _preceding_literal(tree, gd.get("port", -1)) == ":" if "port" in gd else False
     ctx.check(wport and rport, f"{URLPY}::URL:port",
@@ -738,11 +912,13 @@ def _tainted(seeds, binds, stores):
     return t
 
 
-def _origin(expr, binds, groups, line, seen=None):
+def _origin(expr, binds, groups, line, seen=None, porigin=None):
     """regex groups whose text an expression carries; empty set = the whole URL text.
     Direct evidence (a constant group name used as subscript / pop() / get() / group() argument, or a loop variable
-    over constant group names) wins; otherwise names are followed through bindings made before `line`."""
+    over constant group names) wins; otherwise names are followed through bindings made before `line`; `porigin`
+    gives the groups a parameter of a followed helper was bound to by its caller."""
     seen = set() if seen is None else seen
+    porigin = porigin or {}
     direct = set()
     for n in ast.walk(expr):
         keys = []
@@ -763,9 +939,11 @@ def _origin(expr, binds, groups, line, seen=None):
     for nm in _names(expr):
         if nm in seen:
             continue
+        if nm in porigin:
+            out |= porigin[nm]
         for src, l in binds.get(nm, []):
             if l < line:
-                out |= _origin(src, binds, groups, l, seen | {nm})
+                out |= _origin(src, binds, groups, l, seen | {nm}, porigin)
     return out
 
 
@@ -802,7 +980,42 @@ def _hit(aff, possible):
     return set()
 
 
+def _writer_paths(ctx, w):
+    """[(assignment of the conditions tested, parts of the rendered string)] for every path of render_as_string
+    (password shown), by symbolic evaluation; None when the function cannot be evaluated."""
+    cache = ctx.__dict__.setdefault("_c20_writer_paths", {})
+    if w.key not in cache:
+        args = [Opaque("self")] + [False for p_ in w.params[1:2]]
+        try:
+            res = explore_paths(ctx, w, args, cls=w.cls)
+            bad = [r_ for _a, r_ in res if r_[0] != "return"]
+            if bad:
+                raise _PyLiteUnsupported(f"a path raises {bad[0][1]}")
+            cache[w.key] = ([(a_, parts_of(r_[1])) for a_, r_ in res], None)
+        except (_PyLiteUnsupported, RecursionError) as e:
+            cache[w.key] = (None, str(e))
+    return cache[w.key][0]
+
+
+def _writer_paths_error(ctx, w):
+    return ctx.__dict__.get("_c20_writer_paths", {}).get(w.key, (None, ""))[1]
+
+
 def _tail_fields(ctx, w):
+    paths = _writer_paths(ctx, w)
+    if paths is not None:
+        out = set()
+        for _assign, parts in paths:
+            if parts and isinstance(parts[-1], Opaque):
+                m = re.search(r"\bself\.(\w+)", parts[-1].label)
+                if m is None:
+                    return None
+                out.add(m.group(1))
+        return out
+    return _tail_fields_syntactic(ctx, w)
+
+
+def _tail_fields_syntactic(ctx, w):
     """URL fields whose text can be the very end of the rendered string (every later append is conditional);
     None if the writer's shape is not a sequence of appends to the returned accumulator."""
     rets = returns_of(w.node)
@@ -902,36 +1115,57 @@ def r5(ctx):
     start_groups = {"name"} if "name" in groups else set(groups)
 
     # the reader chain: make_url -> ... -> the function holding the regex
-    chain, seen, work = [], set(), [(start, {start.params[0]})]
+    # (a helper that receives the text of one regex group -- `_parse_query_string(components["query"])` -- is part
+    # of the chain, too: what it does to its parameter is done to that group)
+    chain, seen, work = [], set(), [(start, {start.params[0]}, {}, None)]
     while work:
-        fn, seeds = work.pop()
+        fn, seeds, porigin, site = work.pop()
         if fn.key in seen:
             continue
         seen.add(fn.key)
         ctx.functions_analysed.add(fn.key)
         binds, stores = _bindings(fn.node)
-        tainted = _tainted(seeds, binds, stores)
-        chain.append((fn, binds, tainted))
+        tainted = _tainted(set(seeds) | set(porigin), binds, stores)
+        chain.append((fn, binds, tainted, porigin, site, bool(seeds)))
         for c in calls_in(fn.node):
             target, _bs = _resolve_helper(ctx, c, fn)
             if target is None or target.cls is not None or target.key in seen:
                 continue
             a = target.node.args
             pos = [x.arg for x in a.posonlyargs + a.args]
-            hit = set()
+            hit, ghit = set(), {}
             for p_, arg in list(zip(pos, c.args)) + [(k.arg, k.value) for k in c.keywords if k.arg]:
                 if _names(arg) & tainted:
+                    org = _origin(arg, binds, groups, c.lineno, None, porigin) if (fn is rx or porigin) else set()
+                    if org:
+                        ghit[p_] = org
+                        continue
                     hit.add(p_)
                     ctx.require(_passes_text(arg, methods),
                                 f"{fn.key}: the URL text is handed to {target.qualname}() as `{unparse(arg)}`; "
                                 f"that transformation is not understood")
-            if hit:
-                work.append((target, hit))
+            if hit or ghit:
+                work.append((target, hit, ghit, site if site is not None else (c.lineno if fn is rx else None)))
     ctx.require(rx.key in seen, f"make_url() no longer hands the URL text to {rx.qualname}()")
 
-    per_fn = {fn.key: [] for fn, _b, _t in chain}
+    def decoded_before(g_, c, fn, site):
+        """has the text of group g_ been percent-decoded when normaliser call `c` of `fn` sees it?"""
+        for d, dc, dsc in dec_calls.get(g_, []):
+            if d == "int":
+                continue
+            if dsc.fn.key == fn.key:
+                if dc.lineno < c.lineno or any(x is dc for x in ast.walk(c.func.value)):
+                    return True
+                continue
+            pd = dc.lineno if dsc.site is None else dsc.site
+            pc = c.lineno if fn is rx else site
+            if pc is None or pd <= pc:
+                return True
+        return False
+
+    per_fn = {fn.key: [] for fn, _b, _t, _p, _s, _x in chain}
     per_group = {g: [] for g in groups}
-    for fn, binds, tainted in chain:
+    for fn, binds, tainted, porigin, site, _has_text in chain:
         pm = fn.module.parents()
         for c in calls_in(fn.node, into_nested=True):
             nm = call_name(c) or ""
@@ -957,7 +1191,7 @@ def r5(ctx):
             aff = _affected(c, method, spec, oracle)
             ctx.require(aff[0] != "unknown",
                         f"{fn.key}: `{unparse(c)}` transforms text of the URL; the effect of str.{method}() here is not understood")
-            org = _origin(c.func.value, binds, groups, c.lineno) if fn is rx else set()
+            org = _origin(c.func.value, binds, groups, c.lineno, None, porigin) if (fn is rx or porigin) else set()
             if not org:
                 where = spec["where"]
                 cand = set()
@@ -984,8 +1218,7 @@ def r5(ctx):
                         break
             else:
                 for g in sorted(org):
-                    decoded = any(d != "int" and (dc.lineno < c.lineno or any(x is dc for x in ast.walk(c.func.value)))
-                                  for d, dc in dec_calls.get(g, []))
+                    decoded = decoded_before(g, c, fn, site)
                     possible = ANY_ASCII if decoded else literal[g][0]
                     h = _hit(aff, possible)
                     if h:
@@ -994,7 +1227,9 @@ def r5(ctx):
                             f"`{g}`: str.{method}() removes/changes {sorted(h)[:8]}, which a `{GROUP_FIELD.get(g, g)}` value "
                             f"can contain ({'any character after decoding' if decoded else literal[g][1]}); the writer does "
                             f"not invert this")
-    for fn, _b, _t in chain:
+    for fn, _b, _t, _p, _s, has_text in chain:
+        if not has_text and not per_fn[fn.key]:
+            continue
         ctx.check(not per_fn[fn.key], f"{fn.key}:url-text", "; ".join(per_fn[fn.key]),
                   "URL text passed on without normalisation of writer-literal characters", fn.loc)
     # the regex is applied to the text itself
@@ -1112,3 +1347,124 @@ R.mutant("benign-normalised-text-in-error-message", URLPY,
              '            "Could not parse SQLAlchemy URL from given URL string %r" % name.strip()[0:8]\n'), None)
 R.mutant("benign-stricter-safe-and-lstrip", URLPY,
          sub("        return _parse_url(name_or_url)\n", '        return _parse_url(name_or_url.lstrip(" \\t"))\n'), None)
+
+# ---- robustify round (rob-E2): the stored benign refactors rfE_13..15 as families + variants of my own ------------
+_W_PASSWORD = ('                s += ":" + (\n                    "***"\n                    if hide_password\n'
+               '                    else quote(str(self.password), safe=" +")\n                )\n')
+_W_HOST = ('        if self.host is not None:\n            if ":" in self.host:\n                s += f"[{self.host}]"\n'
+           '            else:\n                s += self.host\n')
+_W_QUERY = ('        if self.query:\n            keys = list(self.query)\n            keys.sort()\n')
+_W_QUERY_ITER = '                for element in util.to_list(self.query[k])\n'
+_RFE13 = chain(
+    sub(_W_PASSWORD, '                if hide_password:\n                    rendered_password = "***"\n                else:\n'
+                     '                    rendered_password = quote(str(self.password), safe=" +")\n'
+                     '                s += ":" + rendered_password\n'),
+    sub(_W_HOST, '        host = self.host\n        if host is not None:\n            if ":" in host:\n                s += f"[{host}]"\n'
+                 '            else:\n                s += host\n'),
+    sub(_W_QUERY, '        query = self.query\n        if query:\n            keys = sorted(query)\n'),
+    sub(_W_QUERY_ITER, '                for element in util.to_list(query[k])\n'))
+R.mutant("benign-rfE13-writer-aliases-and-if-else", URLPY, _RFE13, None)
+R.mutant("r4-aliased-host-never-bracketed", URLPY,
+         chain(_RFE13, sub('                s += f"[{host}]"\n', '                s += host\n')), "C20-R4")
+R.mutant("r2-aliased-username-colon-safe", URLPY,
+         chain(sub('        if self.username is not None:\n            s += quote(self.username, safe=" +")\n',
+                   '        username = self.username\n        if username is not None:\n            s += quote(username, safe=" +:")\n')),
+         "C20-R2")
+R.mutant("benign-username-alias", URLPY,
+         sub('        if self.username is not None:\n            s += quote(self.username, safe=" +")\n',
+             '        username = self.username\n        if username is not None:\n            s += quote(username, safe=" +")\n'), None)
+R.mutant("benign-host-test-inverted", URLPY,
+         sub(_W_HOST, '        if self.host is not None:\n            if ":" not in self.host:\n                s += self.host\n'
+                      '            else:\n                s += "[" + self.host + "]"\n'), None)
+R.mutant("r4-host-test-inverted-arms-kept", URLPY,
+         sub('            if ":" in self.host:\n', '            if ":" not in self.host:\n'), "C20-R4")
+R.mutant("benign-host-through-temporary", URLPY,
+         sub(_W_HOST, '        if self.host is not None:\n            hostpart = f"[{self.host}]" if ":" in self.host else self.host\n'
+                      '            s += hostpart\n'), None)
+R.mutant("r4-host-temporary-one-bracket", URLPY,
+         sub(_W_HOST, '        if self.host is not None:\n            hostpart = f"[{self.host}" if ":" in self.host else self.host\n'
+                      '            s += hostpart\n'), "C20-R4")
+R.mutant("r4-port-without-colon", URLPY, sub('            s += ":" + str(self.port)\n', '            s += str(self.port)\n'), "C20-R4")
+
+_R_QUERY_BLOCK = ('        query: Optional[Dict[str, Union[str, List[str]]]]\n        if components["query"] is not None:\n'
+                  '            query = {}\n\n            for key, value in parse_qsl(\n'
+                  '                components["query"], keep_blank_values=True\n            ):\n'
+                  '                if key in query:\n                    query[key] = util.to_list(query[key])\n'
+                  '                    cast("List[str]", query[key]).append(value)\n                else:\n'
+                  '                    query[key] = value\n        else:\n            query = None\n'
+                  '        components["query"] = query\n')
+
+
+def _qs_helper(parse_call, extra=""):
+    return chain(
+        sub('def _parse_url(name: str) -> URL:\n',
+            'def _parse_query_string(query_string):\n    if query_string is None:\n        return None\n\n'
+            '    query = {}\n\n    for key, value in ' + parse_call + ':\n' + extra +
+            '        if key in query:\n            query[key] = util.to_list(query[key])\n'
+            '            cast("List[str]", query[key]).append(value)\n        else:\n            query[key] = value\n'
+            '    return query\n\n\ndef _parse_url(name: str) -> URL:\n'),
+        sub(_R_QUERY_BLOCK, '        components["query"] = _parse_query_string(components["query"])\n'))
+
+
+R.mutant("benign-rfE14-query-parsing-in-helper", URLPY, _qs_helper("parse_qsl(query_string, keep_blank_values=True)"), None)
+R.mutant("r1-query-helper-drops-blank-values", URLPY, _qs_helper("parse_qsl(query_string)"), "C20-R1")
+R.mutant("r5-query-helper-lowercases-keys", URLPY,
+         _qs_helper("parse_qsl(query_string, keep_blank_values=True)", "        key = key.lower()\n"), "C20-R5")
+R.mutant("r5-query-helper-strips-raw-text", URLPY,
+         _qs_helper("parse_qsl(query_string.rstrip('+'), keep_blank_values=True)"), "C20-R5")
+_R_DECODE = ('        for comp in "username", "password", "database":\n            if components[comp] is not None:\n'
+             '                components[comp] = unquote(components[comp])\n\n'
+             '        ipv4host = components.pop("ipv4host")\n        ipv6host = components.pop("ipv6host")\n'
+             '        components["host"] = ipv4host or ipv6host\n')
+
+
+def _decode_helper(comps):
+    return chain(
+        sub('def _parse_url(name: str) -> URL:\n',
+            'def _decode_components(parts):\n    for comp in ' + comps + ':\n        raw = parts[comp]\n'
+            '        if raw is not None:\n            parts[comp] = unquote(raw)\n'
+            '    v4 = parts.pop("ipv4host")\n    v6 = parts.pop("ipv6host")\n    host = v4 or v6\n    parts["host"] = host\n\n\n'
+            'def _parse_url(name: str) -> URL:\n'),
+        sub(_R_DECODE, '        _decode_components(components)\n'))
+
+
+R.mutant("benign-decoding-and-host-in-dict-helper", URLPY, _decode_helper('("username", "password", "database")'), None)
+R.mutant("r1-dict-helper-forgets-password", URLPY, _decode_helper('("username", "database")'), "C20-R1")
+R.mutant("benign-regex-compiled-at-module-level", URLPY,
+         chain(sub('def _parse_url(name: str) -> URL:\n    pattern = re.compile(\n', '_URL_PATTERN = re.compile(\n'),
+               sub('            """,\n        re.X,\n    )\n\n    m = pattern.match(name)\n',
+                   '            """,\n        re.X,\n    )\n\n\ndef _parse_url(name: str) -> URL:\n    m = _URL_PATTERN.match(name)\n')), None)
+
+_EQ_HEAD = '        return (\n            isinstance(other, URL)\n            and self.drivername == other.drivername\n'
+_EQ_GUARD = ('        if not isinstance(other, URL):\n            return False\n\n'
+             '        return (\n            self.drivername == other.drivername\n')
+_MAKE_URL_TAIL = ('    elif not isinstance(name_or_url, URL) and not hasattr(\n'
+                  '        name_or_url, "_sqla_is_testing_if_this_is_a_mock_object"\n    ):\n'
+                  '        raise exc.ArgumentError(\n            f"Expected string or URL object, got {name_or_url!r}"\n        )\n'
+                  '    else:\n        return name_or_url\n')
+R.mutant("benign-rfE15-eq-early-return-make-url-guards", URLPY,
+         chain(sub(_EQ_HEAD, _EQ_GUARD),
+               sub(_MAKE_URL_TAIL, '\n    if not isinstance(name_or_url, URL):\n        if not hasattr(\n'
+                                   '            name_or_url, "_sqla_is_testing_if_this_is_a_mock_object"\n        ):\n'
+                                   '            raise exc.ArgumentError(\n                f"Expected string or URL object, got {name_or_url!r}"\n'
+                                   '            )\n\n    return name_or_url\n')), None)
+R.mutant("r3-eq-early-return-forgets-port", URLPY,
+         chain(sub(_EQ_HEAD, _EQ_GUARD), sub("            and self.port == other.port\n", "")), "C20-R3")
+R.mutant("r3-eq-port-or-instead-of-and", URLPY,
+         sub("            and self.port == other.port\n", "            or self.port == other.port\n"), "C20-R3")
+_EQ_BODY = ('        return (\n            isinstance(other, URL)\n            and self.drivername == other.drivername\n'
+            '            and self.username == other.username\n            and self.password == other.password\n'
+            '            and self.host == other.host\n            and self.database == other.database\n'
+            '            and self.query == other.query\n            and self.port == other.port\n        )\n')
+R.mutant("benign-eq-as-guard-sequence", URLPY,
+         sub(_EQ_BODY, '        if not isinstance(other, URL):\n            return False\n'
+                       '        if self.drivername != other.drivername or self.port != other.port:\n            return False\n'
+                       '        same_login = self.username == other.username and self.password == other.password\n'
+                       '        if not same_login:\n            return False\n'
+                       '        return (self.host, self.database, self.query) == (other.host, other.database, other.query)\n'), None)
+R.mutant("r3-eq-guard-sequence-skips-password", URLPY,
+         sub(_EQ_BODY, '        if not isinstance(other, URL):\n            return False\n'
+                       '        if self.drivername != other.drivername or self.port != other.port:\n            return False\n'
+                       '        same_login = self.username == other.username\n'
+                       '        if not same_login:\n            return False\n'
+                       '        return (self.host, self.database, self.query) == (other.host, other.database, other.query)\n'), "C20-R3")
